@@ -138,6 +138,7 @@ def prop_C18(ctx, tier):
         run.bad('C18-M1', 'fail-closed/selftest/negative', 'fail-closed: negative twin atomic_removal was flagged')
     from . import rules_core as K
     K.check_orphan_tolerance(run, ctx, 'C18-P1')
+    L.check_no_try_locks(run, ctx.world, 'C18-M2')
     return run
 
 
@@ -157,6 +158,8 @@ def prop_C15(ctx, tier):
     run.exhaustive = {'flavours': 3, 'policies': 6, 'bound presence': 8, 'scenarios': ['absent', 'fresh', 'expired(ttl=Some)']}
     S.check_stats_shapes(run, ctx)
     W.check_stats_registration(run, ctx)
+    from . import rules_l as L
+    L.check_no_try_locks(run, ctx.world, 'C15-E3', only=lambda b: b.crate is ctx.core)
     return run
 
 
@@ -204,6 +207,8 @@ def prop_C08(ctx, tier):
     run.require('C08-E1', 'LFU/ARC/TLRU hit outcomes', n, 60)
     K.check_selectors(run, ctx)
     K.check_frequency_shapes(run, ctx)
+    from . import rules_l as L
+    L.check_no_try_locks(run, ctx.world, 'C08-E2', only=lambda b: b.crate is ctx.core)
     run.violations = [v for v in run.violations if v['rule'].startswith('C08')]
     return run
 
@@ -223,6 +228,7 @@ def prop_C04(ctx, tier):
     run.require('C04-P1', 'limit-eviction routines', len([a for a in a2.values() if a]), 3)
     run.require('C04-P1', 'eviction outcomes', n2, 36)
     K.check_store_pairing(run, ctx)
+    K.check_replacement_before_overflow_test(run, ctx)
     K.check_lookup_expiry(run, ctx)  # expired purge leaves both (P2)
     S.check_random_victim(run, ctx)
     S.check_queue_dedupe(run, ctx)
